@@ -55,7 +55,8 @@ def families(tier: str) -> list[dict]:
                      I=1 + i % 2, **dt)
             if model in ('conv', 'conv2') and dt.get('param_dtype') == 'bfloat16':
                 c.update(param_dtype='float32', factor_dtype=None)
-            fams.append(reffam.fam(c, ['Train', 'Step'], d))
+            fams.append(reffam.fam(
+                c, ['Train', 'Step'] if quick else ['Train', 'Step', 'Eval'], d))
             i += 1
     return fams
 
@@ -69,7 +70,8 @@ def main(tier: str, seed: int) -> int:
 
     agg = reffam.run_families(
         fams, seed, max_replay=24 if tier == 'quick' else 400, prefer=prefer,
-        do_spec=(tier != 'quick'))
+        do_spec=(tier != 'quick'),
+        nseeds=1 if tier == 'quick' else 6)
     reffam.report(v, agg, fams, CATS)
     v.coverage['rule'] += ('; for C01 each compared step checks every '
                            'registered layer against the float64 solution '
